@@ -64,12 +64,11 @@ switch("C09", "lateral-null-correlation-drops-outer-row", "lateral_null_outer_dr
 # engine errors on valid statements
 errmsg("C01", "text-in-subquery-identity-cast-error", "Cast function 'S' cannot handle source type UtfN", "text IN / op ANY / op ALL (subquery) fails: the planner inserts an identity cast Utf8->Utf8 which no cast function accepts", "SELECT 'x' IN (SELECT b FROM t)", ["C09", "C06", "C02", "C03", "C13"])
 errmsg("C01", "order-by-alias-of-ungrouped-aggregate", "Column 'S' must appear in the GROUP BY clause or be used in an aggregate function", "ORDER BY <alias of an aggregate> fails when the query has aggregates but no GROUP BY", "SELECT max(a) AS m FROM t ORDER BY m", ["C08", "C02", "C03"])
-errmsg("C01", "planner-table-ref-invalid", "Table ref is invalid. Left: [TableRef { table_idx: N }], right: [TableRef { table_idx: N }], got: Ta", "planner error on a valid 3-way join: CROSS JOIN followed by LEFT/RIGHT JOIN whose ON references both earlier tables", "SELECT t1.k FROM t0 t1 CROSS JOIN t0 t2 LEFT JOIN t0 t3 ON (t1.c0 = t3.a0 AND t1.a0 = t3.b)", ["C06", "C02", "C03", "C09"])
+errmsg("C01", "planner-table-ref-invalid", "Table ref is invalid. Left: [TableRef..], right: [TableRef..], got: TableRef { table_idx: N }", "planner error on a valid 3-way join: CROSS JOIN followed by LEFT/RIGHT JOIN whose ON references both earlier tables", "SELECT t1.k FROM t0 t1 CROSS JOIN t0 t2 LEFT JOIN t0 t3 ON (t1.c0 = t3.a0 AND t1.a0 = t3.b)", ["C06", "C02", "C03", "C09"])
 errmsg("C01", "planner-missing-left-rel-id", "Missing left rel id", "join reordering fails ('Missing left rel id') on valid joins mixing SEMI/INNER joins and subqueries", "SELECT .. FROM t0 t1 JOIN t0 t2 USING (k) SEMI JOIN t0 t3 ON (t1.k = t3.k AND t2.k <> t3.k) WHERE t2.k >= ANY (SELECT ..)", ["C06", "C02", "C03", "C09"])
 errmsg("C01", "planner-missing-right-rel-id", "Missing right rel id", "join reordering fails ('Missing right rel id') on valid joins with LATERAL", "SELECT .. FROM t0 t1 CROSS JOIN t0 t2, LATERAL (..) l WHERE .. GROUP BY ..", ["C06", "C02", "C03", "C09"])
 errmsg("C01", "planner-filter-previously-used", "Filter previously used: N", "optimizer error 'Filter previously used' on valid queries with CTEs referenced several times", "WITH c AS (..) SELECT .. FROM c x CROSS JOIN (.. FROM c ..)", ["C02", "C03", "C09"])
-errmsg("C01", "planner-column-expr-invalid-table-ref-1", "Column expr not referencing a valid table ref, column: #N.N, valid tables: [#N]", "physical planning fails on valid queries combining IN (subquery) with derived tables/joins", "SELECT .. FROM (SELECT .. JOIN ..) d WHERE 25 IN (SELECT a FROM t WHERE c)", ["C02", "C03", "C09"])
-errmsg("C01", "planner-column-expr-invalid-table-ref-2", "Column expr not referencing a valid table ref, column: #N.N, valid tables: [#N, #N]", "physical planning fails on valid queries combining IN (subquery) with joins and GROUP BY/HAVING", "SELECT g, count(*) FROM a LEFT JOIN b ON true WHERE 2 IN (SELECT c FROM t) GROUP BY g HAVING ..", ["C02", "C03", "C09"])
+errmsg("C01", "planner-column-expr-invalid-table-ref", "Column expr not referencing a valid table ref, column: #N.N, valid tables: [#N..]", "physical planning fails ('Column expr not referencing a valid table ref') on valid queries combining IN (subquery) with derived tables, joins and GROUP BY/HAVING", "SELECT .. FROM (SELECT .. JOIN ..) d WHERE 25 IN (SELECT a FROM t WHERE c)", ["C02", "C03", "C09"])
 errmsg("C01", "planner-pre-projection-aggregate", "Failed to plan expressions for aggregate pre-projection", "physical planning fails ('Failed to plan expressions for aggregate pre-projection') on valid aggregates over subquery predicates", "WITH c AS (SELECT sum(..) FROM a CROSS JOIN b WHERE 1 IN (SELECT ..) HAVING ..) ..", ["C02", "C03", "C09", "C07"])
 errmsg("C01", "planner-pre-projection-group-by", "Failed to plan expressions for group by pre-projection", "physical planning fails ('Failed to plan expressions for group by pre-projection')", "SELECT .. FROM a CROSS JOIN b CROSS JOIN (..) d WHERE a.k IN (SELECT ..) GROUP BY ..", ["C02", "C03", "C09", "C07"])
 errmsg("C01", "planner-projection", "Failed to plan expressions for projection", "physical planning fails ('Failed to plan expressions for projection') with LATERAL referencing two outer tables", "SELECT -l.z FROM a CROSS JOIN b, LATERAL (SELECT a.x AS z FROM c WHERE c.k <> b.k) l", ["C02", "C03", "C09"])
@@ -95,6 +94,11 @@ case("C04", "left-join-limit-hang", "a LEFT (or RIGHT) hash join below LIMIT han
      "SELECT 1 FROM t2 AS t1 LEFT JOIN t2 AS t3 ON (t1.k = t3.k) LIMIT 1",
      {"outcome": "rows", "rows": [[1]]}, {"outcome": "deadlock", "deadlock_kind": "stuck_barrier", "parked_ops": ["HashJoin/exec"]},
      ["C01", "C03", "C06", "C08", "C15"], exec={"kind": "det", "policy": "fifo", "partitions": 2})
+
+case("C07", "grouping-function-argument-order", "GROUPING(args) ignores the order of its arguments and mishandles expression keys: the bitmask follows the position of the keys in the GROUP BY list instead of the argument order documented in docs/sql/query-syntax/group-by.md (rightmost argument = least significant bit)",
+     ["CREATE TEMP TABLE g (k INT)", "INSERT INTO g VALUES (1)"],
+     "SELECT (k % 2) AS z2, grouping((k % 2), k) AS z3 FROM g GROUP BY CUBE (k, (k % 2))",
+     {"outcome": "rows", "rows": [[1, 0], [None, 2], [1, 1], [None, 3]]}, {"outcome": "rows", "rows": [[1, 0], [None, 1], [1, 2], [None, 3]]}, ["C01", "C02", "C03"])
 
 T2 = ["CREATE TEMP TABLE t2 (k INT, j INT)", "INSERT INTO t2 VALUES (1,2),(2,3),(3,1)"]
 case("C02", "optimizer-cte-self-join", "with the optimizer on, two scans of one CTE in the same FROM clause are confused with each other: the cross product c a, c b returns a's columns for b (wrong rows); with a join condition the join-reorder assertion fires / 'Filter previously used' is raised. Correct with enable_optimizer=false",
